@@ -101,7 +101,9 @@ namespace Pistache::Http
 
             iterator operator++(int)
             {
-                iterator ret(iter_storage, iter_storage_end);
+                // the position before the step (not the first cookie stored under
+                // the current name, which is what a fresh iterator points at)
+                iterator ret(*this);
                 ++iter_cookie_values;
                 if (iter_cookie_values == iter_storage->second.end())
                 {
